@@ -889,7 +889,11 @@ class Executor:
     def operand(self, fr, o):
         o = o.strip()
         if o.startswith("copy ") or o.startswith("move "):
-            return self.read_place(fr, parse_place(o[5:]))
+            v = self.read_place(fr, parse_place(o[5:]))
+            if o.startswith("copy ") and isinstance(v, SeqObj) and isinstance(v.ln, int):
+                # only arrays are Copy among the sequence types (Vec and slices are moved or borrowed): a copy is a new value
+                return SeqObj(self.fresh_name(v.name + "_copy"), v.elem_ty, [Cell(c.v) for c in v.items], v.ln, v.max)
+            return v
         if o.startswith("const "):
             m = re.search(r"::(promoted\[\d+\])$", o)
             if m:
